@@ -61,6 +61,40 @@ class PathInfo:
         self._dec = out
         return out
 
+    def cmp_facts(self):
+        """Comparison facts established along the path, canonicalised: every
+        (op, lhs, rhs) is present in both orientations and with negated tests
+        turned into the positive opposite.  Plus ('call', short name, args, truth)."""
+        from .prog import short
+        FLIP = {"Lt": "Gt", "Gt": "Lt", "Le": "Ge", "Ge": "Le", "Eq": "Eq", "Ne": "Ne"}
+        NEG = {"Lt": "Ge", "Ge": "Lt", "Gt": "Le", "Le": "Gt", "Eq": "Ne", "Ne": "Eq"}
+        out = []
+        for d in self.decisions():
+            if d[0] != "bool":
+                continue
+            ds = terms.strip(d[3])
+            truth = d[2]
+            while ds[0] == "un" and ds[1] == "Not":
+                ds = terms.strip(ds[2])
+                truth = not truth
+            if ds[0] == "bin" and ds[1] in FLIP:
+                op = ds[1] if truth else NEG[ds[1]]
+                l, r = canon(ds[2]), canon(ds[3])
+                out.append((op, l, r))
+                out.append((FLIP[op], r, l))
+            elif ds[0] == "call":
+                nm = short(ds[1])
+                args = tuple(canon(a) for a in ds[2])
+                if (nm.endswith("::eq") or nm.endswith("::ne")) and len(args) == 2:
+                    op = "Eq" if nm.endswith("::eq") else "Ne"
+                    if not truth:
+                        op = NEG[op]
+                    out.append((op, args[0], args[1]))
+                    out.append((op, args[1], args[0]))
+                else:
+                    out.append(("call", nm, args, truth))
+        return out
+
     def calls(self):
         """[(bb, callee name, [arg terms])] along the path, in order."""
         from .facts import callee_name
@@ -113,3 +147,22 @@ def variant_table(P, b, subject=None, enum_suffix=None):
         for v in names:
             table.setdefault(v, set()).add(r)
     return table
+
+
+def predicate_table(P, b):
+    """For a small pure function/closure: set of (frozenset of canonical facts on the path, shape of the result)."""
+    from .ordrules import shape_of
+    out = set()
+    for pi in paths(P, b, to_return_only=True):
+        facts = []
+        for f in pi.cmp_facts():
+            if f[0] == "call":
+                facts.append(("%s(%s)" % (f[1], ", ".join(f[2])), f[3]))
+            elif f[1] <= f[2]:
+                facts.append(("%s(%s, %s)" % (f[0], f[1], f[2]), True))
+        for d in pi.decisions():
+            if d[0] == "variant":
+                facts.append(("variant(%s)" % d[1], d[2]))
+        r = pi.ret()
+        out.add((frozenset(facts), shape_of(r) if shape_of(r) != "?" else canon(r)))
+    return out
